@@ -39,8 +39,8 @@ CLAIMED = {
    note="accepted non-negative length prefixes are enumerated only up to input length + 2; JSON text components, chat NBT components and registry data are not covered. Also covered (reflect shim): Ary with 5 prefix types, NBTField into any/struct/map, BlockEntity and Chunk.ReadFrom incl. structured height maps of wrong sizes; the command dispatcher on every ASCII line of 0..5 (quick) / 0..6 bytes against three graphs built with the public builders.",
    ref="6 C08"),
  "C09": dict(
-   text="For every byte string of length 0..5 (quick) / 0..9 (thorough) and each of 14 stream decoders (fixed-width fields, VarInt/VarLong, Position, UUID, String, ByteArray, BitSet, FixedBitSet, Option, uncompressed frame): the result under 1/2/3-byte fragmentation equals the contiguous read (value, count, error-ness, residual); a reader failing or ending at every offset before completion yields an error; a writer failing after k bytes makes WriteTo/Pack fail for every k.",
-   note="readers returning (0,nil) or (n>0,err) are outside. Also: compressed frames under fragmentation and under truncation/failure at every offset; RawMessage, StringifiedMessage and dynbt.Value decoding (0..7/9 bytes) under 1-2 byte reads and failure at every offset; RCON ReadPacket under 1..3 byte reads, truncation/failure at every offset and WritePacket with a writer failing after k bytes (binary.Read modelled with io.ReadFull semantics).",
+   text="For every byte string of length 0..5 (quick) / 0..9 (thorough) and each of 14 stream decoders (fixed-width fields, VarInt/VarLong, Position, UUID, String, ByteArray, BitSet, FixedBitSet, Option, uncompressed frame): the result under 1/2/3-byte chunks and under EVERY division of the stream into short reads (each Read call delivers an arbitrary count) equals the contiguous read (value, count, error-ness, residual); a reader failing or ending at every offset before completion yields an error; a writer failing after k bytes makes WriteTo/Pack (plain and compressed) fail for every k. NBT: RawMessage, StringifiedMessage and dynbt.Value decoding of every byte string of 0..6/8 bytes, typed decoding of the catalogue document and of root values of 8 kinds into typed and `any` targets, under chunks of 1/2/3/5 bytes and under one short read placed at any multi-byte read; reader failure/EOF at every offset; typed Encode, RawMessage, StringifiedMessage.MarshalNBT, dynbt MarshalNBT and root-value Encode against a writer that fails at any offset, permanently or once. Compressed frames and RCON ReadPacket under the same schedules, truncation/failure at every offset, WritePacket with a failing writer.",
+   note="readers returning (0,nil) or (n>0,err) are outside; fully arbitrary schedules only for the short packet fields (longer streams: fixed chunks plus one arbitrarily placed short read); binary.Read modelled with io.ReadFull semantics; zlib by the model codec; document sizes as in the harnesses (catalogue struct, GenNBT budget 2..3).",
    ref="6 C09"),
  "C11": dict(
    text="For every b=1..32 and n in {1,vpl-1,vpl,vpl+1,2vpl+1} (thorough also 64,130): one inductive step from an arbitrary state (arbitrary raw longs incl. padding bits) with symbolic i, j, v: Get/Set/Swap behave as an array, other indices untouched, Raw() follows the >=1.16 packing; out-of-range index/value panics leave the state unchanged; b=0; size rules, constructor refusal and Fix; wire round trip into fresh/used storage.",
@@ -75,7 +75,7 @@ CLAIMED = {
    note="NOT covered: the JSON form (encoding/json), JSON/NBT equivalence, rendering to plain/ANSI text (regexp, fmt, translation table) - these cannot be encoded by the engine (DESIGN 7); depth 2 only; the chat package initialiser (regexp, language table) is not executed.",
    ref="7 C17 (partial)"),
  "C18": dict(
-   text="NameToUUID: MD5 digest arbitrary (stub returns unconstrained bytes tied to the hashed byte sequence), result == digest of exactly \"OfflinePlayer:\"+name with version 3 / variant bits, names of 0..4 arbitrary bytes. authDigest, both copies (bot, server/auth, in-package): for every 20-byte SHA-1 digest (quick: at most 4 leading 00/ff bytes and 3 trailing zero bytes; thorough: all non-zero digests) the string equals an independent signed-hex rendering (subtract-with-borrow two's complement, nibble hex, zero trim), and the hashed bytes are serverID++secret++key in order. VerifySignature: accepted iff the (stubbed, arbitrary) RSA verification succeeded.",
+   text="NameToUUID: MD5 digest arbitrary (stub returns unconstrained bytes tied to the hashed byte sequence), result == digest of exactly \"OfflinePlayer:\"+name with version 3 / variant bits, names of 0..4, 15..18, 24, 33 and 49 arbitrary bytes. authDigest, both copies (bot, server/auth, in-package): for every 20-byte SHA-1 digest (quick: at most 4 leading 00/ff bytes and 3 trailing zero bytes; thorough: all non-zero digests) the string equals an independent signed-hex rendering (subtract-with-borrow two's complement, nibble hex, zero trim), and the hashed bytes are serverID++secret++key in order. VerifySignature and PublicKey.Verify (constructed directly or read from the wire): accepted only if a (stubbed, arbitrary-outcome) RSA verification against the embedded services key object succeeded - success against any other key, e.g. the presented one, is not enough.",
    note="MD5/SHA-1/SHA-256/RSA/x509 are stubs (trusted stdlib); all-zero digest excluded; native replay of digest counterexamples is a bounded search over 2^19 inputs; PEM framing of the hashed key not checked.",
    ref="6 C18"),
 }
